@@ -7,3 +7,19 @@ NOT_APPLICABLE = {}
 check("C05", "exploration", "exhaustive input-grid enumeration through real WriteGGUF/Decode with a byte-level reference oracle",
       "Every (KV map, tensor list) from a small alphabet chosen to hit padding/offset arithmetic (unaligned sizes, 4 alignments, header pad lengths, block-sorted names, every writer-supported value type) is written by the real WriteGGUF and decoded by the real Decode; keys, values, kinds, reversed shapes, bytes at decoded offsets, alignment and end offset are compared. Complete below the stated bounds; says nothing about larger tensor counts or other value types.",
       "Go compiler/runtime; the harness oracle (reflect.DeepEqual on decoded values; byte comparison).", "DESIGN.md 3/C05", "evid")
+
+ENGINES += [
+ {"name": "mcrt", "path": "engine/mcrt", "serves_properties": ["C01", "C02", "C11"], "kind_free_text": "controlled runtime (cooperative scheduler over real goroutines, sync/atomic/channel/select shims, virtual time, contexts), stateless DFS explorer with per-class deviation bounds and happens-before caching, vector-clock race detector"},
+ {"name": "instrument", "path": "tools/instrument", "serves_properties": ["C01", "C02", "C11"], "kind_free_text": "go/ast+go/types source rewriter producing go build -overlay files from /repo's current tree (import substitution to shim packages; go/send/recv/close/range/select rewriting)"},
+]
+
+_sched_note = "Go toolchain and go build -overlay; the instrumenter's rewrite rules and mcrt shims (unit-tested); scheduling points only at synchronisation/time/mock-runner operations; plain memory accesses between points are atomic; small-scope: 2-3 requests over 3 models per scenario, deviation bounds as in evidence."
+check("C01", "model_checking", "stateless model checking of the real Scheduler: exhaustive DFS over thread interleavings (preemption/switch/time/fault bounded) with online monitor",
+      "The real server.Scheduler (both loops, timers, helper goroutines, built from the current tree through the instrumenter) is executed under a controlled scheduler; for each of ~20 request scenarios every schedule within the deviation bounds is enumerated (HB-cached DFS). A monitor fires at every runner Close and every grant: no Close while a request holds the runner, no double Close, no grant of a closed/unloaded runner.",
+      _sched_note, "DESIGN.md 3/C01", "mcrt")
+check("C02", "model_checking", "stateless model checking of the real Scheduler run to quiescence: reply ledger, drain and deadlock oracles on every explored schedule",
+      "Same executions as C01, each run until no thread can move and all keep-alive timers have elapsed (virtual time): every un-cancelled request got exactly one reply, queue-full gives an immediate busy error, started==shut down, nothing reported loaded, no pending timers, no scheduler goroutine blocked (deadlock) before or after shutdown.",
+      _sched_note, "DESIGN.md 3/C02", "mcrt")
+check("C11", "model_checking", "stateless model checking of the real Scheduler with runner-count / one-per-model / reuse / eviction-order / memory-fit monitors",
+      "Same executions plus configuration scenarios (MAX_LOADED 1/2/unset, tight GPU memory found by bisection on the real estimator, two GPUs, CPU mode): live runners <= limit, <=1 per model, granted runner's start options match the request, compatible loaded runner reused and idle shortest-keep-alive victim chosen (sequential scenarios, judged only while no keep-alive can have expired), new runner next to loaded ones only on GPUs where PredictServerFit holds for the memory they leave.",
+      _sched_note, "DESIGN.md 3/C11", "mcrt")
